@@ -18,6 +18,7 @@
 import Nuts.Model.Dir
 import Nuts.Model.DB
 import NutsProofs.Facts
+import NutsProofs.Pins.Modes
 namespace NutsProofs.C22
 open Nuts Nuts.Model.Dir
 
